@@ -28,8 +28,18 @@ const (
 	vString
 	vEnum
 	vStringCat // string column with a concatenating merge function (result longer than the delta)
+	vRecord    // binary record column (values are opaque byte strings behind Marshal/UnmarshalBinary)
 	vNumKinds
 )
+
+// vRec is the record type of the vRecord kind: its binary form is its content.
+type vRec struct{ b []byte }
+
+func (r *vRec) MarshalBinary() ([]byte, error) { return r.b, nil }
+func (r *vRec) UnmarshalBinary(b []byte) error {
+	r.b = append(r.b[:0], b...)
+	return nil
+}
 
 // vCell is the model of one column of one row.
 type vCell struct {
@@ -39,7 +49,7 @@ type vCell struct {
 }
 
 func vIsNumeric(k vKind) bool { return k <= vFloat64 }
-func vIsText(k vKind) bool    { return k == vString || k == vEnum || k == vStringCat }
+func vIsText(k vKind) bool    { return k == vString || k == vEnum || k == vStringCat || k == vRecord }
 func vCanMerge(k vKind) bool  { return k <= vFloat64 || k == vString || k == vStringCat }
 
 func vMask(k vKind) uint64 {
@@ -84,6 +94,8 @@ func vMakeColumn(k vKind) Column {
 		return ForEnum()
 	case vStringCat:
 		return ForString(WithMerge(func(value, delta string) string { return value + delta }))
+	case vRecord:
+		return ForRecord(func() *vRec { return new(vRec) })
 	}
 	panic("vMakeColumn: kind")
 }
@@ -117,6 +129,8 @@ func vSet(r Row, k vKind, col string, num uint64, str string) {
 		r.SetString(col, str)
 	case vEnum:
 		r.SetEnum(col, str)
+	case vRecord:
+		r.SetRecord(col, &vRec{b: []byte(str)})
 	}
 }
 
@@ -192,6 +206,10 @@ func vGet(r Row, k vKind, col string) (c vCell) {
 		c.str, c.has = r.String(col)
 	case vEnum:
 		c.str, c.has = r.Enum(col)
+	case vRecord:
+		if v, ok := r.Record(col); ok {
+			c.str, c.has = string(v.(*vRec).b), true
+		}
 	}
 	return
 }
